@@ -395,7 +395,13 @@ func (t *taskTrace) Do(options ...DoOption) {
 
 	verifAt("tasktrace.do.checked")
 	response := newDoOption(options...)
-	t.forward <- *response
+	// Several callers can pass the check above before the first answer has been
+	// processed; only one answer is ever taken, so a caller must not stay
+	// blocked on the full channel once the request is done.
+	select {
+	case t.forward <- *response:
+	case <-t.done:
+	}
 }
 
 func (t *taskTrace) process() {
